@@ -864,6 +864,13 @@ class Run:
                 foreign = _State("Foreign", value="zz_foreign_value")
                 foreign._set_id("zz_foreign")
                 sm.current_state = foreign
+            elif kind == "cs_lookalike":
+                from statemachine import State as _State
+
+                real = getattr(sm, step["like"])
+                fake = _State(real.name, value=("zz_lookalike", step["like"]))
+                fake._set_id(real.id)
+                sm.current_state = fake
             rec.emit("step", op="write", phase="end", wkind=kind, target=step.get("target"), valid=step.get("valid", True))
         except Exception as err:  # noqa: BLE001
             rec.emit("step", op="write", phase="end", wkind=kind, target=step.get("target"), valid=step.get("valid", True),
